@@ -2,7 +2,7 @@
     Property theorems only; each is closed by [exact] of a lemma from DDBvProofs.v / DDProofs.v.
     M = DDModel.v / DDBvModel.v (hfiledd.c, bitvect.c as the code performs them), S = DDSpec.v (finite map). *)
 From Coq Require Import ZArith List Bool Permutation Lia.
-Require Import H4.gen.Gen_DD H4.DDBvModel H4.DDBvProofs H4.DDSpec H4.DDModel H4.DDProofs H4.DDInvProofs.
+Require Import H4.gen.Gen_DD H4.DDBvModel H4.DDBvProofs H4.DDSpec H4.DDModel H4.DDProofs H4.DDInvProofs H4.DDEofModel.
 Import ListNotations.
 Local Open Scope Z_scope.
 
@@ -137,6 +137,14 @@ Theorem reopen_parse_serialize : forall n m slots dhdr dslots,
 Proof. exact reopen_parse_serialize_lemma. Qed.
 Print Assumptions reopen_parse_serialize.
 
+(** HTPstart's end of file: the value it recovers for f_end_off (block-end and element-end expressions regenerated
+    from the body of HTPstart) is at or beyond the end of every DD block -- header plus ndds records of DD_SZ bytes --
+    and of every data element, for every chain of blocks.  Anything allocated after a reopen therefore lies behind
+    all live descriptors and data. *)
+Theorem htpstart_eof_covers : forall bl, eof_covers (htpstart_end_off bl) bl = true.
+Proof. exact htpstart_eof_covers_lemma. Qed.
+Print Assumptions htpstart_eof_covers.
+
 (** Deleting with caching off reaches the disk: after HTPdelete (steps in the order of the C source, see
     Gen_DD.HTPdelete_calls) the slot written through to the file carries DFTAG_NULL. *)
 Theorem delete_persists_uncached : forall st p st',
@@ -192,6 +200,8 @@ Example ex_cache_both_in_domain :
   snd (run_states m_empty [] ex_hist) = true /\
   snd (run_states m_empty [] (OOpen 4 :: filter (fun o => negb (is_cache_op o)) (tl ex_hist))) = true.
 Proof. vm_compute. split; reflexivity. Qed.
+Example ex_eof : htpstart_end_off [mklb 4 4 [(202, 92); (294, 4); (298, 5); (303, 6)]; mklb 309 4 [(294, 4); (294, 4); (294, 4); (294, 4)]] = 363.
+Proof. vm_compute. reflexivity. Qed.
 Example ex_bv_wf : exists b, bv_new (-1) = Some b /\ bv_wf b.
 Proof. eexists. split; [reflexivity|]. exact (proj1 (bv_new_wf (-1) _ eq_refl)). Qed.
 Example ex_delete_uncached : m_cache ex_state = false /\ (exists st', htpdelete ex_state 1 = Some st').
